@@ -149,11 +149,12 @@ class ScriptedAdbDevice(object):
     self.violations = []
 
   # -- device side helpers ------------------------------------------------------
-  def _emit(self, cmd, arg0, arg1, payload='', meta=None):
+  def _emit(self, cmd, arg0, arg1, payload='', meta=None, payload_delay_s=None):
     self.log.append(('dev', cmd, arg0, arg1, payload))
-    for c in frame_chunks(cmd, arg0, arg1, payload):
+    for n, c in enumerate(frame_chunks(cmd, arg0, arg1, payload)):
       self.out.append(c)
-      self.out_meta.append(meta)
+      # the payload of a frame is a USB transfer of its own: it may become readable later than its header
+      self.out_meta.append(['ack', None, payload_delay_s] if (n == 1 and payload_delay_s) else meta)
 
   def _pump(self):
     """Release device WRTEs/CLSEs according to merge order and flow control."""
@@ -172,7 +173,7 @@ class ScriptedAdbDevice(object):
         if sc.get('echo') and not s.get('host_data'):
           continue      # a request/response service: silent until the host has written on this stream
         if s['sent'] < len(wr):
-          self._emit('WRTE', s['remote'], s['local'], wr[s['sent']])
+          self._emit('WRTE', s['remote'], s['local'], wr[s['sent']], payload_delay_s=sc.get('payload_delay_s'))
           s['sent'] += 1
           s['awaiting_ack'] = True
           progress = True
@@ -315,7 +316,7 @@ class ScriptedAdbDevice(object):
           raise timeout_error()
         self.cond.wait(delay)
       meta = self.out_meta.popleft() if self.out_meta else None
-      if meta and meta[0] == 'ack':
+      if meta and meta[0] == 'ack' and meta[1] is not None:
         st = self.by_local.get(meta[1])
         if st is not None:
           st['host_wrte_unacked'] = False
